@@ -171,11 +171,18 @@ def playback(harness, timeout_s=900, crate='kani'):
 
 
 def handle_failures(rep, failed, pid, crate='kani'):
+    reproduced = 0
     for h, r in failed:
         if any('unwinding assertion' in f for f in r['failed']):
             rep.inconc(f'Kani harness {h}: unwinding assertion failed (bound too small): {r["failed"][:2]}')
             continue
+        if reproduced >= 2:
+            # two counterexamples already replayed natively: further failing harnesses are listed, not replayed (each playback is a
+            # fresh Kani run of several minutes); they are not reported as violations of their own
+            rep.extra.setdefault('kani_failed_not_replayed', []).append(h)
+            continue
         ok, detail = playback(h, crate=crate)
+        reproduced += 1 if ok else 0
         if ok is None:
             rep.inconc(f'Kani harness {h} FAILED but could not be replayed: {detail}')
         elif ok:
